@@ -12,7 +12,7 @@ fn arg(args: &[String], name: &str) -> Option<String> {
 pub fn run(run: &Arc<Run>) {
     run.set_rule(
         "configurations: the five advertised feature sets {default, std, std+approx, std+serde, std+approx+serde}; for each the monitor crate is built against /repo with exactly that set (a failed build of stats-ci is the violation) and a smoke workload (one judged call per public module, oracles shared with the main monitor) is run; \
-         under the serde sets: seeded accumulation histories (appends, merged partial states; n = 0..3000) for Arithmetic/Geometric/Harmonic/Paired/Unpaired<f32,f64>, proportion::Stats, plus Confidence and Interval<i64/f64/f32/String> of each kind, serialised at a cut point with two independent formats (serde_json with float_roundtrip, CBOR), \
+         under the serde sets: seeded accumulation histories (appends, merged partial states; n = 0..3000) for Arithmetic/Geometric/Harmonic/Paired/Unpaired<f32,f64>, proportion::Stats, plus Confidence and Interval<i64/f64/f32/String> of each kind, serialised at a cut point with three independent formats (serde_json with float_roundtrip, CBOR — both self-describing — and a positional, non-self-describing binary format written for the monitor: field order, no names, no type tags), \
          restored copy must be ==, Debug-identical, answer every query identically (bitwise) and stay identical under the same continuation. distinct = (feature set, call) and (type, state) fingerprints summed over configurations.",
     );
     run.assume("serde_json (float_roundtrip) and ciborium are lossless for finite floats; only finite data are generated");
@@ -69,6 +69,7 @@ pub fn run(run: &Arc<Run>) {
                     json!({"cargo_log_tail": b["tail"]}),
                 );
             }
+            "run-failed" => run.inconclusive(format!("monitor_run_failed_for_{} (crash or failed self-test of the monitor's own serialisation format)", set)),
             _ => run.inconclusive(format!("monitor_build_failed_for_{}", set)),
         }
     }
@@ -85,5 +86,5 @@ pub fn run(run: &Arc<Run>) {
         run.inconclusive("fewer_than_10_percent_of_serialised_states_have_nonzero_compensation");
     }
     run.absorb(l);
-    run.require(&["smoke call judged", "approx feature exercised", "serialised states with non-zero compensation", "roundtrip:Arithmetic<f64>", "roundtrip:Unpaired<f32>", "roundtrip:proportion::Stats", "roundtrip:Confidence", "roundtrip:Interval<String>", "degenerate intervals round-tripped", "states with counts beyond 2^32 round-tripped"]);
+    run.require(&["smoke call judged", "approx feature exercised", "serialised states with non-zero compensation", "roundtrip:Arithmetic<f64>", "roundtrip:Unpaired<f32>", "roundtrip:proportion::Stats", "roundtrip:Confidence", "roundtrip:Interval<String>", "degenerate intervals round-tripped", "states with counts beyond 2^32 round-tripped", "positional (non-self-describing) format self-test passed"]);
 }
